@@ -12,7 +12,7 @@ from ..core import mkstate, cj, enc, enc_rows, dec
 LEVEL = 'exploration'
 D = decimal.Decimal
 NUMS = [-2, -1.5, 0, 1, 1.5, 10, D('2.5'), 1e10, -1e-3, 2 ** 53, 2 ** 53 + 1, -1e300, -1e200, 1e300, 5e-324]
-TEXTS = ['', 'a', 'a0', 'ab', 'b', 'B', 'é', '😀']
+TEXTS = ['', 'a', 'a0', 'ab', 'ax', 'b', 'B', 'é', '😀']
 
 
 def frac(v):
@@ -55,7 +55,7 @@ class SmallCache(kvfile.KVFile):
 
 def run_sort_both(kind, vals, keyform, reverse, batch_size):
     """resources=None: the first resource's key field holds text, the second's the given values."""
-    rows = [{'f': v, 'g': 5 if keyform == 'format2' else (len(vals) - i) % 2, 'id': i} for i, v in enumerate(vals)]
+    rows = [{'f': v, 'g': 1 if keyform == 'format2' else (len(vals) - i) % 2, 'id': i} for i, v in enumerate(vals)]
     first = [{'f': t, 'g': 1, 'id': 100 + i} for i, t in enumerate(['b', 'a', 'c'])]
     st = mkstate([('first', [('f', 'string'), ('g', 'integer'), ('id', 'integer')], first),
                   ('t', [('f', 'number' if kind == 'num' else 'string'), ('g', 'integer'), ('id', 'integer')], rows)])
@@ -65,7 +65,7 @@ def run_sort_both(kind, vals, keyform, reverse, batch_size):
 
 
 def run_sort(kind, vals, keyform, reverse, batch_size, small_cache):
-    rows = [{'f': v, 'g': 5 if keyform == 'format2' else (len(vals) - i) % 2, 'id': i} for i, v in enumerate(vals)]
+    rows = [{'f': v, 'g': 1 if keyform == 'format2' else (len(vals) - i) % 2, 'id': i} for i, v in enumerate(vals)]
     st = mkstate([('t', [('f', 'number' if kind == 'num' else 'string'), ('g', 'integer'), ('id', 'integer')], rows),
                   ('other', [('f', 'string')], [{'f': 'z'}, {'f': 'a'}])])
     m = core.mod('dataflows.processors.sort_rows')
@@ -86,7 +86,9 @@ def classify(kind, x, y):
     if kind == 'text':
         a, b = (x, y) if len(x) <= len(y) else (y, x)
         if b.startswith(a) and len(b) > len(a):
-            return 'key-prefix-of-another'
+            # the stored key is <text><8 hex digits of the row number>: a continuation character up to 'f' can collide with
+            # the digits of the shorter key's row number (the recorded finding); anything above cannot
+            return 'key-prefix-of-another' if b[len(a)] <= 'f' else 'key-prefix-of-another/continued-above-hex-digits'
         return 'text-other'
     if float(x) == float(y) and frac(x) != frac(y):
         return 'number-equal-as-double'
@@ -158,6 +160,8 @@ def cases(tier):
             cfgs = full_cfg if len(vals) <= n_full else red_cfg
             if tier == 'quick' and len(vals) == 3 and kind == 'num':
                 cfgs = red_cfg[:2]
+            if tier == 'quick' and len(vals) == 3 and kind == 'text':
+                cfgs = red_cfg[:3]
             for k, r, b, s in cfgs:
                 out.append({'kind': kind, 'vals': [enc(v) for v in vals], 'key': k, 'reverse': r, 'batch': b, 'small': s})
             if len(vals) in (2, 3) and kind == 'num':
